@@ -15,7 +15,7 @@ for p in seeded/*/patch.diff mutants/*/*.diff; do
   if [ $rc -eq 1 ] && echo "$out" | grep -q "^VIOLATION property=$id"; then
     echo "caught   $id  $p"
   else
-    echo "MISSED   $id  $p  (exit $rc)"; miss=$((miss+1))
+    echo "MISSED   $id  $p  (exit $rc) $(echo "$out" | grep -m1 INFRA-ERROR | cut -c1-300)"; miss=$((miss+1))
   fi
 done
 echo "missed: $miss"
